@@ -110,6 +110,20 @@ DoStore(t, x, v, site, M(_)) ==
   IN /\ ms' = ScAfter(StoreEff(ScBefore(ms, t, mo), t, x, v, mo, KeepAll), t, mo)
      /\ ev' = [NoEv EXCEPT !.t = t, !.k = "store", !.site = site, !.mo = mo, !.loc = LocName(x), !.i = LocIdx(x), !.v = v]
 
+\* store to a slot word.  Later stores to the same word continue the release sequence of the unlock store
+\* before them (ISO C++11-17 for the same thread; for another thread that re-uses the slot this is what
+\* every multi-copy-atomic / cumulative hardware guarantees and what EBR implementations rely on): a scan
+\* that acquires ANY value coherence-after an unlock is ordered after that region.  Without this the model
+\* would report the formal C++20 race "reader A left (release), reader B recycled the slot (relaxed
+\* store), the scan acquired B's value", which no machine can exhibit.
+DoSlotStore(t, x, v, site, M(_)) ==
+  LET mo == M(site)
+      prev == Last(ms, x).view
+      ms1 == ScAfter(StoreEff(ScBefore(ms, t, mo), t, x, v, mo, KeepAll), t, mo)
+      n == Len(ms1.mem[x])
+  IN /\ ms' = [ms1 EXCEPT !.mem[x][n].view = VJoin(@, prev)]
+     /\ ev' = [NoEv EXCEPT !.t = t, !.k = "store", !.site = site, !.mo = mo, !.loc = LocName(x), !.i = LocIdx(x), !.v = v]
+
 DoRmw(t, x, kind, F(_), a, site, M(_), K(_)) ==
   LET mo == M(site)
       old == LastVal(ms, x)
@@ -197,7 +211,7 @@ LVLoad(t, M(_)) ==
 
 LSStore(t, M(_)) ==
   /\ pc[t] = "l_sstore"
-  /\ DoStore(t, SlotLoc(L[t].idx), L[t].v, "lock_slot_store", M)
+  /\ DoSlotStore(t, SlotLoc(L[t].idx), L[t].v, "lock_slot_store", M)
   /\ Goto(t, "l_fence")
   /\ UNCHANGED <<cfg, L, G, H>>
 
@@ -209,7 +223,7 @@ LFence(t, M(_)) ==
 
 UStore(t, M(_)) ==
   /\ pc[t] = "u_store"
-  /\ DoStore(t, SlotLoc(L[t].idx), MAXV, "unlock_slot_store", M)
+  /\ DoSlotStore(t, SlotLoc(L[t].idx), MAXV, "unlock_slot_store", M)
   /\ G' = [G EXCEPT !.lt[L[t].idx] = @ - 1]
   /\ Goto(t, "ret")
   /\ UNCHANGED <<cfg, L, H>>
